@@ -747,6 +747,10 @@ impl ToolCallCollector {
     fn drain_function_calls(&mut self) -> Vec<FunctionCallItem> {
         let mut calls = std::mem::take(&mut self.completed_function_calls);
         calls.sort_by_key(|call| call.output_index);
+        // A repeated `output_item.done` (or a second item reusing the call id) is still one call:
+        // execute and answer each call id once.
+        let mut seen: HashSet<String> = HashSet::new();
+        calls.retain(|call| seen.insert(call.call_id.clone()));
         calls
     }
 }
